@@ -84,6 +84,7 @@ pub struct Case {
     pub touches_xmm: bool,
     pub mem_target: u64,
     pub mem_w: u64,
+    pub rip_override: Option<u64>, // RIP written through the register API after construction (C19: any RIP is a state)
 }
 
 pub struct Layout;
@@ -692,7 +693,7 @@ impl Gen {
             "reg".to_string()
         };
         let _ = used_gprs;
-        Some(Case { id, family: family.to_string(), shape: shape_name, instr, bytes, pre, native_ok, uses_gs, touches_xmm, mem_target: target, mem_w })
+        Some(Case { id, family: family.to_string(), shape: shape_name, instr, bytes, pre, native_ok, uses_gs, touches_xmm, mem_target: target, mem_w, rip_override: None })
     }
 
     fn prepare_special(&mut self, m: Mnemonic, code: Code, pre: &mut Pre, _is_mem: &[bool]) {
@@ -927,6 +928,9 @@ pub fn run_ax(c: &Case, lay: &Layout) -> Post {
         ax.verif_set_rflags(c.pre.fl);
         ax.write_fs(c.pre.fs);
         ax.write_gs(c.pre.gs);
+        if let Some(r) = c.rip_override {
+            ax.reg_write_64(ax_x86::state::registers::SupportedRegister::RIP, r).map_err(|e| format!("setup: {e}"))?;
+        }
         let step = catch_unwind(AssertUnwindSafe(|| async_std::task::block_on(ax.step())));
         let (out, msg) = match step {
             Ok(Ok(_)) => (Outcome::Ok, String::new()),
